@@ -135,7 +135,8 @@ class DESolver:
             dt = self._getDt(dXdt)
             dt = dt if dt > self._dtmin else self._dtmin
             dt = dt if dt < self._dtmax else self._dtmax
-            return self._flattenX(dXdt), dt
+            #Python float: a reduced-precision proposal (e.g. np.float32) would turn currTime into that type
+            return self._flattenX(dXdt), float(dt)
         else:
             return self._flattenX(dXdt)
         
